@@ -107,6 +107,8 @@ structure XR where
   ready : Bool
   synced : Bool
   refs : List (Option Nat)   -- spec.resourceRefs
+  rev : Option Nat := none   -- spec.compositionRevisionRef.name (`none`: no revision selected yet); XRs of one list
+                             -- often share a revision and still reference different kinds
   deriving DecidableEq, Repr
 
 /-- the kinds the listed XRs reference: `used` of GarbageCollectWatchesNow -/
